@@ -71,7 +71,11 @@ TRUSTED = ["scripted etcd (fake EtcdClient in the driver: Get = sorted snapshot 
            "watch goroutines are serialised by the driver (one event, then an empty response as barrier, per stream); reload "
            "is awaited through the Watch call it ends with",
            "etcd revision semantics reduced to: the stream opened after a snapshot at revision r starts at r+1 and misses nothing"]
-ASSUMPTIONS = ["resolver: at most subsetSize = 32 distinct values (subset() truncates beyond that); events can be injected during "
+ASSUMPTIONS = ["failing snapshot Gets: the scripted client honours the request context (fails at once on a done context, 'hang' answers only "
+               "when the context is done, 'err' fails immediately); RequestTimeout is set to 30 ms for these cases, the retries are "
+               "coolDownInterval (1 s, a constant) apart, so 5 directed histories with 1-2 failed attempts each are run; registry changes "
+               "during the failing period are store-only (no stream is open while a reload is pending)",
+               "resolver: at most subsetSize = 32 distinct values (subset() truncates beyond that); events can be injected during "
                "Build only while its first UpdateState call is in progress (the only point the ClientConn can hold it)",
                "each key carries one value during its life (the quantifier's proviso); histories outside it are only used to "
                "validate the model",
@@ -209,6 +213,26 @@ def multi_prefix_family():
     out.append({"kind": "hist", "prefix": "svc", "prefixes": pf, "events": [
         SUB(p=0), SUB(p=1), P("svc/1", "a", False), P("k/1", "b", False), RL, SUB(p=1), D("svc/1", False), D("k/1", False), RL]})
     return out
+
+
+def failing_get_family():
+    """(r5-1) the snapshot Get of a reload / of the initial monitor fails or hangs (for longer than RequestTimeout in
+    total, the retries being coolDownInterval apart) while the registry changes; then it succeeds."""
+    H = lambda ev, pf=None: dict({"kind": "hist", "prefix": (pf or ["svc"])[0], "events": ev}, **({"prefixes": pf} if pf else {}))
+    OFF = {"t": "fail_off"}
+    RF = lambda mode, n=1: {"t": "reload", "fail": mode, "n": n}
+    SF = lambda mode, n=1, x=False, p=0: {"t": "sub", "x": x, "ls": [0], "p": p, "fail": mode, "n": n}
+    return [
+        # an instance leaves and another arrives while the reload's snapshot hangs / errors
+        H([SUB(), P("svc/1", "a"), RF("hang"), D("svc/1", False), P("svc/2", "b", False), OFF, P("svc/3", "a"), D("svc/2")]),
+        H([SUB(), P("svc/1", "a"), RF("err", 2), D("svc/1", False), P("svc/2", "b", False), OFF, D("svc/2")]),
+        # the initial monitor cannot read; a second subscriber and a later plain reload
+        H([P("svc/1", "a"), SF("hang"), P("svc/2", "b", False), OFF, D("svc/1"), SUB(True), P("svc/3", "b", False), RL]),
+        H([SUB(), P("svc/1", "a"), SF("err", 1, True), D("svc/1", False), P("svc/2", "a", False), OFF, D("svc/2")]),
+        # two prefixes: both must come back
+        H([SUB(p=0), SUB(p=1), P("svc/1", "a"), P("k/1", "b"), RF("hang"), D("svc/1", False), D("k/1", False), P("k/2", "c", False), OFF,
+           P("svc/2", "a"), D("k/2")], ["svc", "k"]),
+    ]
 
 
 def batch_family():
@@ -360,7 +384,7 @@ def resolver_family():
 
 def generate(rng, tier, n):
     cases = (list(directed()) + resolver_family() + late_join_family() + duplicate_family() +
-             publisher_family() + multi_prefix_family() + batch_family())
+             publisher_family() + multi_prefix_family() + batch_family() + failing_get_family())
     nres = max(6, n // 12)
     for _ in range(nres):
         cases.append(_res(rng))
@@ -380,7 +404,7 @@ def generate(rng, tier, n):
 
 def search(rng, problems):
     out = (list(directed()) + resolver_family() + late_join_family() + duplicate_family() +
-           publisher_family() + multi_prefix_family() + batch_family())
+           publisher_family() + multi_prefix_family() + batch_family() + failing_get_family())
     out += [_res(rng) for _ in range(20)] + [_pub(rng) for _ in range(20)]
     for _ in range(60):
         out.append(_hist(rng, n_events=rng.randint(4, 10)))
@@ -396,15 +420,40 @@ def _projections(case, ho):
     out = []
     for pi, pfx in enumerate(prefixes):
         evs, sts = [], []
+        pending = None        # a sub/reload whose snapshot Gets fail until fail_off
+        held = []             # calls the listener of a pending subscription received before its load succeeded (the replay)
         for j, ev in enumerate(case["events"]):
-            if ev["t"] == "sub" and ev.get("p", 0) != pi:
-                continue
-            evs.append(ev)
+            st = None
             if j < len(steps) and pi < len(steps[j].get("per") or []):
                 st = dict(steps[j]["per"][pi])
                 st["stuck"] = steps[j]["stuck"]
+            mine_pending = pending is not None and pending["t"] == "sub" and pending.get("p", 0) == pi
+            if ev["t"] in ("sub", "reload") and ev.get("fail"):
+                pending = ev
+                if ev["t"] == "sub" and ev.get("p", 0) != pi:
+                    continue
+                out_ev = {"t": "getfail"}       # the operation is pending: model event = a failed snapshot attempt
+                mine_pending = ev["t"] == "sub"
+            elif ev["t"] == "fail_off":
+                pe, pending = pending, None
+                if pe is None or (pe["t"] == "sub" and pe.get("p", 0) != pi):
+                    continue
+                out_ev = {k: v for k, v in pe.items() if k not in ("fail", "n")}
+                mine_pending = False
+                if st is not None and pe["t"] == "sub" and st["calls"]:
+                    st["calls"] = st["calls"][:-1] + [held + st["calls"][-1]]
+                held = []
+            elif ev["t"] == "sub" and ev.get("p", 0) != pi:
+                continue
+            else:
+                out_ev = ev
+            if st is not None and mine_pending and st["calls"]:
+                held = held + st["calls"][-1]       # Monitor's replay happens at once; the model attaches the listener
+                st["calls"] = st["calls"][:-1]      # when the load succeeds (nothing is delivered in between)
+            evs.append(out_ev)
+            if st is not None:
                 sts.append(st)
-        sts = sts[:len(evs)] if len(sts) == len(evs) else sts[:min(len(sts), len(evs))]
+        sts = sts[:min(len(sts), len(evs))]
         out.append({"prefix": pfx, "events": evs, "steps": sts})
     return out
 
@@ -586,6 +635,8 @@ def _encode_proj(prefix, pr):
             events.append("Del %s %s" % (ids.key(ev["k"]), cbool(ev["d"])))
         elif ev["t"] == "batch":
             events.append("Batch %s" % clist([_item(ids, it) for it in ev["items"]]))
+        elif ev["t"] == "getfail":
+            events.append("GetFail")
         elif ev["t"] == "reload":
             first = calls[0] if calls else []
             events.append("Reload %s %s" % (_keys(ids, first, "+"), _keys(ids, first, "-")))
